@@ -69,6 +69,7 @@ def check_handoff(case):
         "depth": f["depth"],
         "interleaved": sorted(case["merge"][: len(merged)]) != list(case["merge"][: len(merged)]),
         "messages": len(merged),
+        "id_components": max([len([c for c in tid.split("@")[1].split("/") if c]) for tid in ids] or [0]),
     }
 
 
@@ -80,6 +81,7 @@ def classify_handoff(case, info):
         labels.append("thread-hop")
     if info["interleaved"]:
         labels.append("interleaving-merge-order")
+    labels.append("deepest-id-components=%d" % min(info.get("id_components", 0), 6))
     nontrivial = info["hops"] >= 1 and (info["depth"] >= 3 or info["hops"] >= 2 or info["interleaved"])
     return nontrivial, labels
 
@@ -91,7 +93,12 @@ def handoff_strategy():
     return st.builds(
         lambda merge, p: {"merge": merge, "program": _processify(p, merge)},
         st.lists(st.integers(0, 50), max_size=60),
-        P.programs(max_nodes=12, max_depth=5, kinds=["with", "finish", "run", "task", "typed", "log_call", "gen_next"], remote_weight=4, min_depth=2),
+        st.one_of(
+            # deep chains of actions and hops (ids with many level components, multi-hop) ...
+            P.programs(max_nodes=12, max_depth=8, kinds=["with", "finish", "run", "typed", "log_call", "gen_next", "with", "with"], remote_weight=5, min_depth=2, extras=False, raises=False, reenter=False),
+            # ... and the broad program generator (exceptions, re-entered contexts, new tasks, actions created for later)
+            P.programs(max_nodes=12, max_depth=5, kinds=["with", "finish", "run", "task", "typed", "log_call", "gen_next"], remote_weight=4, min_depth=2),
+        ),
     )
 
 
